@@ -36,7 +36,7 @@ func projSource(r *rand.Rand) string {
 		}
 		return sb.String()
 	}
-	switch r.Intn(13) {
+	switch r.Intn(14) {
 	case 12:
 		// an expression whose text looks like an id action
 		return core.Pick(r, "uid:0\ngid:0\neuid:0\n", "\\bid:9\\d+\n", "x,id:123,\n")
@@ -55,7 +55,16 @@ func projSource(r *rand.Rand) string {
 	case 6:
 		return "##!> include-except inc1 exc1\n" + list(1)
 	case 7:
-		return "##!> cmdline unix\n  " + core.Pick(r, "ls", "cat@", "python~", "nc") + "\n  " + core.Pick(r, "id", "wget@", "sh~") + "\n##!<\n"
+		// (the same word with different markers in different files of a tree: what one file makes of a word is no
+		// business of the next)
+		return "##!> cmdline unix\n  " + core.Pick(r, "ls", "cat@", "python~", "nc", "python@", "python") + "\n  " + core.Pick(r, "id", "wget@", "sh~", "sh@", "sh", "wget~") + "\n##!<\n"
+	case 13:
+		// an assembly file of more than a kilobyte
+		var sb strings.Builder
+		for i := 0; i < 110; i++ {
+			sb.WriteString(fmt.Sprintf("%s%03d\n", w(), i))
+		}
+		return sb.String()
 	case 8:
 		return "##!> assemble\n  " + list(2) + "  ##!=>\n  " + list(2) + "##!<\n" + w() + "\n"
 	case 9:
@@ -180,6 +189,10 @@ func projGen1(r *rand.Rand) *project {
 func (p *project) addDecoys(r *rand.Rand) {
 	d := map[string]string{
 		"regex-assembly/932100.ra.bak":                              "  not an assembly file\n",
+		"regex-assembly/NOTES.RA":                                   "   upper-case extension: not an assembly file\n",
+		"regex-assembly/include/legacy.Ra":                          "     mixed-case extension\n",
+		"rules/LOCAL.CONF":                                          "# OWASP CRS ver.1.0.0\n",
+		"tests/regression/tests/REQUEST-932-TESTS/932779.YAML":      "  - test_id: 9\n  - test_id: 4\n\n\n",
 		"regex-assembly/932100.txt":                                 "  not an assembly file\n",
 		"regex-assembly/notes.ra.txt":                               "  notes\n",
 		"regex-assembly/README":                                     "  readme\n",
